@@ -179,22 +179,36 @@ func c01DepsJoined(c *Check, a *Anchors) {
 				c.Decide(sameGroup && uncond, "deps-joined", "spawn@"+name, x.Pos(),
 					"group.Go on the WithContext group, reached on every iteration of the loop over t.Deps",
 					fmt.Sprintf("group.Go is not reached for every dependency (same group: %v, inside the deps loop: %v, unconditional in the loop body: %v)", sameGroup, inLoop, uncond))
-				// the closure must call RunTask with the group's context and the loop's dep
+				// the spawned function must call RunTask with the group's context: a literal here, or the function a package
+				// helper returns (g.Go(e.depRunner(ctx, d))), possibly running the dependency through a further helper
 				if len(x.Args) == 1 {
-					if fl, ok := ast.Unparen(x.Args[0]).(*ast.FuncLit); ok {
-						lit := c.P.LitBody(fl)
+					okCtx := false
+					switch sp := ast.Unparen(x.Args[0]).(type) {
+					case *ast.FuncLit:
+						lit := c.P.LitBody(sp)
 						c.Fn(lit)
-						okCtx, okCall := false, false
-						for _, call := range callsIn(lit, false) {
-							if a.is(callee(info, call), a.RunTask) && len(call.Args) >= 1 {
-								okCall = true
-								okCtx = varOf(info, call.Args[0]) == ctxVar && ctxVar != nil
+						okCtx = a.ctxReachesRunTask(c.P, lit, ctxVar, 2)
+					case *ast.CallExpr:
+						if hfn, ok := callee(info, sp).(*types.Func); ok {
+							if h := c.P.DeclOf(hfn); h != nil && h.Pkg.PkgPath == PkgTask {
+								c.Fn(h)
+								i := 0
+								for _, fld := range h.Type.Params.List {
+									for _, id := range fld.Names {
+										if i < len(sp.Args) && varOf(info, sp.Args[i]) == ctxVar && ctxVar != nil {
+											if pv, ok := h.Info().Defs[id].(*types.Var); ok && a.ctxReachesRunTask(c.P, h, pv, 2) {
+												okCtx = true
+											}
+										}
+										i++
+									}
+								}
 							}
 						}
-						c.Decide(okCall && okCtx, "deps-joined", "ctx@"+name+"$go", fl.Pos(),
-							"the spawned closure calls RunTask with the context returned by errgroup.WithContext",
-							fmt.Sprintf("the spawned closure does not run the dependency under the group's context (calls RunTask: %v, with the group context: %v): a failing sibling no longer cancels it", okCall, okCtx))
 					}
+					c.Decide(okCtx, "deps-joined", "ctx@"+name+"$go", x.Args[0].Pos(),
+						"the spawned function calls RunTask with the context returned by errgroup.WithContext",
+						"the spawned function does not run the dependency (RunTask) under the group's context: a failing sibling no longer cancels it")
 				}
 			}
 		}
@@ -235,10 +249,30 @@ func c01DepErrorKept(c *Check, a *Anchors) {
 	c.Rule("dep-error-kept", "each closure handed to group.Go calls RunTask on every path and never returns nil when RunTask's error is non-nil")
 	fb := a.DepRunner
 	n := 0
-	for _, lit := range fb.Lits() {
+	// the goroutine functions: literals of the dependency runner, and literals of the package helpers it calls (a helper
+	// that returns the function to spawn); a call to a helper that returns RunTask's result on every path counts as RunTask
+	isRun := func(info *types.Info, call *ast.CallExpr) bool {
+		fn, _ := callee(info, call).(*types.Func)
+		if fn == nil {
+			return false
+		}
+		if a.is(fn, a.RunTask) {
+			return true
+		}
+		return a.runTaskWrapper(c.P, c.P.DeclOf(fn), 2)
+	}
+	lits := append([]*FuncBody{}, fb.Lits()...)
+	for _, call := range callsIn(fb, true) {
+		if fn, ok := callee(fb.Info(), call).(*types.Func); ok {
+			if h := c.P.DeclOf(fn); h != nil && h != fb && h != a.RunTask && h.Pkg.PkgPath == PkgTask && !a.runTaskWrapper(c.P, h, 2) {
+				lits = append(lits, h.Lits()...)
+			}
+		}
+	}
+	for _, lit := range lits {
 		usesRun := false
 		for _, call := range callsIn(lit, false) {
-			if a.is(callee(lit.Info(), call), a.RunTask) {
+			if isRun(lit.Info(), call) {
 				usesRun = true
 			}
 		}
@@ -247,7 +281,14 @@ func c01DepErrorKept(c *Check, a *Anchors) {
 		}
 		c.Fn(lit)
 		n++
-		f := NewFlow(c.P, lit, a.labelRun(lit.Info()))
+		base := a.labelRun(lit.Info())
+		linfo := lit.Info()
+		f := NewFlow(c.P, lit, func(call *ast.CallExpr, obj types.Object) string {
+			if isRun(linfo, call) {
+				return "runtask"
+			}
+			return base(call, obj)
+		})
 		f.Run()
 		for i, r := range f.Returns {
 			res := errResult(r)
